@@ -126,8 +126,13 @@ def check (spec0):
             bad ('cli', 'cli-pulse', '--excitation-pulse %d -> %d, --excitation-pulse %d,%d -> %d'
                  % (a, ma.sources [0].idx + 1, k, t, mb.sources [0].idx + 1))
             continue
-        observe.solve (ma)
-        observe.solve (mb)
+        try:
+            observe.solve (ma)
+            observe.solve (mb)
+        except common.Repo_Crash as e:
+            if 'LinAlgError' in e.key:
+                continue        # overlapping wires of the random graph: singular system, addressing already checked
+            raise
         za, zb = ma.sources [0].impedance, mb.sources [0].impedance
         if not (abs (za - zb) <= 1e-12 * abs (za)):
             bad ('cli', 'cli-impedance', 'absolute and per-object form give %r / %r' % (za, zb))
@@ -180,7 +185,12 @@ def check (spec0):
         lst = sorted (int (x ['pulse']) for x in r2 ['loads'])
         if lst != got or int (r2.get ('nloads', -1)) != len (got):
             bad ('loads', 'listing-load', 'load listing names %s (NUMBER OF LOADS %s), loaded pulses %s' % (lst, r2.get ('nloads'), got))
-        observe.solve (ml)
+        try:
+            observe.solve (ml)
+        except common.Repo_Crash as e:
+            if 'LinAlgError' in e.key:
+                continue
+            raise
         zdiag [name] = (np.array (ml.Z).diagonal ().copy (), ml.sources [0].impedance)
     if 'abs' in zdiag and 'obj' in zdiag:
         if not np.array_equal (zdiag ['abs'][0], zdiag ['obj'][0]) or zdiag ['abs'][1] != zdiag ['obj'][1]:
